@@ -3,8 +3,10 @@ package c15
 
 import (
 	"bytes"
+	"encoding/base64"
 	"encoding/json"
 	"fmt"
+	crypto "github.com/libp2p/go-libp2p-core/crypto"
 	"os"
 	"path/filepath"
 	"runtime/debug"
@@ -399,6 +401,14 @@ func run(c *fw.Ctx, idx int) {
 	}
 	if s.name == "restapi" {
 		doc["basic_auth_credentials"] = map[string]interface{}{"canaryuser": canaryPass}
+		// half of the rounds the REST API has its own libp2p identity: a private key to hide
+		if round%2 == 1 {
+			if id := canaryKeyID(); id != "" {
+				doc["private_key"] = canaryKey
+				doc["id"] = id
+				doc["libp2p_listen_multiaddress"] = []interface{}{"/ip4/127.0.0.1/tcp/9601"}
+			}
+		}
 	}
 	var ls []leaf
 	leaves(nil, doc, &ls)
@@ -723,4 +733,21 @@ func envCase(c *fw.Ctx, s *section, r *fw.Rand, doc map[string]interface{}, ls [
 			}
 		}()
 	}
+}
+
+// canaryKeyID is the peer id that belongs to canaryKey.
+func canaryKeyID() string {
+	b, err := base64.StdEncoding.DecodeString(canaryKey)
+	if err != nil {
+		return ""
+	}
+	k, err := crypto.UnmarshalPrivateKey(b)
+	if err != nil {
+		return ""
+	}
+	id, err := peer.IDFromPrivateKey(k)
+	if err != nil {
+		return ""
+	}
+	return peer.Encode(id)
 }
